@@ -593,6 +593,40 @@ def h_measure_values(V, family, N, seed):
             V.check_equal('measure_1site(charged)=<chi|cp_n|psi>', [r[n]], [vc @ (jw(ops, N, [(O, n)]) @ vp)])
 
 
+def h_rdm_values(V, family, N, seed):
+    """
+    rdm(psi, *sites): Tr(rho . O_1 x O_2 ...) = <psi| O_1(s_1) O_2(s_2) ... |psi> in the Jordan-Wigner convention for every order of the
+    sites (operators combined by fkron), and Tr(rho) = <psi|psi> -- the state with its norm factor, as every measure_* function counts it
+    """
+    import yastn
+    import yastn.tn.mps as mps
+    ops = ops_of(family)
+    psi = make_state(V, family, N, 'a', seed)
+    sp = ops.space()
+    vp = dense_state(V, psi, sp)
+    fermi = FAMILIES[family][0] == 'SpinlessFermions'
+    if fermi:
+        O, P, Q = ops.cp(), ops.c(), ops.n()
+    else:
+        O, P, Q = ops.sp(), ops.sm(), ops.z()
+    if V.symbolic:
+        O, P, Q = (x._replace(config=x.config._replace(backend=BackendProxy())) for x in (O, P, Q))
+    pairs = [(0, 1), (1, 0), (0, N - 1), (N - 1, 0)] if N > 2 else [(0, 1), (1, 0)]
+    for sites in dict.fromkeys(pairs):
+        rho = V.call(mps.rdm, psi, *sites)
+        V.check_equal(f'rdm{sites}:trace=<psi|psi>', [V.call(yastn.einsum, 'aabb', rho).item()], [vp @ vp])
+        for A, B in ((O, P), (P, O), (Q, Q), (O, Q)) if sites[0] < 2 else ((O, P),):
+            got = V.call(yastn.einsum, 'abcd,badc', rho, V.call(yastn.fkron, A, B)).item()
+            V.check_equal(f'rdm{sites}:Tr(rho.A x B)=<psi|A_i.B_j|psi>', [got], [vp @ (jw(ops, N, [(A, sites[0]), (B, sites[1])]) @ vp)])
+    if N >= 3:
+        for sites in ((0, 1, 2), (2, 0, 1), (1, 2, 0)):
+            rho = V.call(mps.rdm, psi, *sites)
+            got = V.call(yastn.einsum, 'abcdef,badcfe', rho, V.call(yastn.fkron, O, P, Q, sites=(0, 1, 2))).item()
+            V.check_equal(f'rdm{sites}:Tr(rho.A x B x C)=<psi|A_i.B_j.C_k|psi>', [got], [vp @ (jw(ops, N, list(zip((O, P, Q), sites))) @ vp)])
+    one = V.call(mps.rdm, psi, N - 1)
+    V.check_equal('rdm(single-site):Tr(rho.Q)=<psi|Q_n|psi>', [V.call(yastn.einsum, 'ab,ba', one, Q).item()], [vp @ (jw(ops, N, [(Q, N - 1)]) @ vp)])
+
+
 def units(tier, which):
     U = []
     th = tier == 'thorough'
@@ -636,6 +670,8 @@ def units(tier, which):
                                 U.append(('h_env3_refresh', f"{lab},precompute={pc},site={site},to={to}", dict(p, precompute=pc, site=site, to=to)))
                 if which == 'C07':
                     U.append(('h_measure_values', lab, p))
+                    if N <= 3 and family != 'spin-dense':
+                        U.append(('h_rdm_values', lab, p))
     return U
 
 
